@@ -46,6 +46,10 @@ Calls ==
    \cup {[k |-> "dscore", n |-> n, m |-> m, v |-> v, eps |-> e] : n \in {0, 1, 2, 3}, m \in {0, 1, 2, 3}, v \in {"fin", "nan", "const", "pinf", "huge"}, e \in {0, 1}}
    \cup {[k |-> "pit", n |-> n, m |-> m, v |-> v, random |-> r] : n \in {0, 1, 3}, m \in {0, 1, 3}, v \in {"fin", "nan", "pinf"}, r \in BOOLEAN}
    \cup {[k |-> "ad_test", n |-> n, v |-> v] : n \in Ns, v \in {"unit", "fin", "nan", "neg", "zero", "pinf"}}
+   \* catchments rebuilt from a dictionary (a stored catchment, possibly edited): degenerate and inconsistent cell lists reach the
+   \* boundary / intersect / voronoi kernels through the public constructor
+   \cup {[k |-> kk, shape |-> s, area |-> a] : kk \in {"dcat.boundary", "dcat.intersect", "dcat.voronoi"}, s \in {<<3, 3>>, <<1, 3>>},
+              a \in {"single", "pair", "corner", "all", "outgrid", "negative", "empty", "duplicate"}}
    \* inputs that live in read-only memory (a memory-mapped file opened for reading): a kernel that writes into its INPUT dies
    \cup {[k |-> "ad_test", n |-> n, v |-> "romap"] : n \in {1, 3, 5}}
    \cup {[k |-> "eckhardt", n |-> 5, v |-> "romap", tt |-> 1, thresh |-> 1, tau |-> 20]}
